@@ -51,125 +51,170 @@ theorem evalArgs_cons_frag (O : Oracle) {e : Expr} (h : fragE e = true) (es : Li
       | (.error x, σ1) => (.error x, σ1) :=
   evalArgs.eq_4 O σ e es (frag_not_starred h) (frag_not_keyword h)
 
+/-- closes goals with `h : fragE <non-fragment node> = true` -/
+macro "notfrag" h:ident : tactic => `(tactic| (simp [fragE] at $h:ident))
+
 mutual
-theorem frag_adjust : ∀ (e : Expr) (ov : Option Ctx), fragE (adjustCtx ov e) = fragE e
-  | .name .., ov => by simp [adjustCtx, fragE]
-  | .const .., ov => by simp [adjustCtx, fragE]
-  | .attr i v a c, ov => by simp [adjustCtx, fragE, frag_adjust v]
-  | .subscript i v s c, ov => by simp [adjustCtx, fragE, frag_adjust v, frag_adjust s]
-  | .call i f as ks, ov => by
-      simp [adjustCtx, fragE, frag_adjust f, frags_adjust as]
-      cases ks <;> simp [adjustCtxs]
-  | .unary i op e, ov => by simp [adjustCtx, fragE, frag_adjust e]
-  | .binop i op l r, ov => by simp [adjustCtx, fragE, frag_adjust l, frag_adjust r]
-  | .compare i l ops rs, ov => by
-      simp [adjustCtx, fragE, frag_adjust l, frags_adjust rs, adjustCtxs_length]
-  | .seq i .set es c, ov => by simp [adjustCtx, fragE, frags_adjust es]
-  | .seq i .tuple es c, ov => by simp [adjustCtx, fragE, frags_adjust es]
-  | .seq i .list es c, ov => by simp [adjustCtx, fragE, frags_adjust es]
-  | .namedexpr i t v, ov => by
-      cases t with
-      | seq j k es c => cases k <;> simp [adjustCtx, fragE]
-      | other j k ats ks => by_cases hk : k = "Dict" <;> simp [adjustCtx, fragE, hk]
-      | _ => simp [adjustCtx, fragE, frag_adjust v]
-  | .keyword .., ov => by simp [adjustCtx, fragE]
-  | .boolop .., ov => by simp [adjustCtx, fragE]
-  | .ifexp .., ov => by simp [adjustCtx, fragE]
-  | .lambda .., ov => by simp [adjustCtx, fragE]
-  | .starred .., ov => by simp [adjustCtx, fragE]
-  | .comp .., ov => by simp [adjustCtx, fragE]
-  | .comprehension .., ov => by simp [adjustCtx, fragE]
-  | .arguments .., ov => by simp [adjustCtx, fragE]
-  | .arg .., ov => by simp [adjustCtx, fragE]
-  | .withitem .., ov => by simp [adjustCtx, fragE]
-  | .noneMarker, ov => by simp [adjustCtx, fragE]
-  | .other i k ats ks, ov => by
-      by_cases hk : k = "Dict" <;> simp [adjustCtx, fragE, hk]
-theorem frags_adjust : ∀ (es : List Expr) (ov : Option Ctx), fragEs (adjustCtxs ov es) = fragEs es
-  | [], ov => by simp [adjustCtxs, fragEs]
-  | e :: es, ov => by simp [adjustCtxs, fragEs, frag_adjust e, frags_adjust es]
+theorem frag_adjust_nw : ∀ (e : Expr) (ov : Option Ctx), noWalrus e = true → fragE e = true →
+    fragE (adjustCtx ov e) = true ∧ noWalrus (adjustCtx ov e) = true
+  | .name .., ov, _, _ => by simp [adjustCtx, fragE, noWalrus]
+  | .const .., ov, _, _ => by simp [adjustCtx, fragE, noWalrus]
+  | .attr i v a c, ov, hn, hf => by
+      simp only [noWalrus] at hn
+      simp only [fragE, Bool.and_eq_true] at hf
+      have := frag_adjust_nw v (some .load) hn hf.1
+      simp [adjustCtx, fragE, noWalrus, this.1, this.2]
+  | .subscript i v s c, ov, hn, hf => by
+      simp only [noWalrus, Bool.and_eq_true] at hn
+      simp only [fragE, Bool.and_eq_true] at hf
+      have h1 := frag_adjust_nw v (some .load) hn.1 hf.1.1.1
+      have h2 := frag_adjust_nw s (some .load) hn.2 hf.1.1.2
+      simp [adjustCtx, fragE, noWalrus, h1.1, h1.2, h2.1, h2.2]
+  | .call i f as ks, ov, hn, hf => by
+      simp only [noWalrus, Bool.and_eq_true] at hn
+      simp only [fragE, Bool.and_eq_true, List.isEmpty_iff] at hf
+      obtain ⟨⟨hff, hfa⟩, rfl⟩ := hf
+      have h1 := frag_adjust_nw f none hn.1.1 hff
+      have h2 := frags_adjust_nw as none hn.1.2 hfa
+      simp [adjustCtx, adjustCtxs, fragE, noWalrus, noWalruss, h1.1, h1.2, h2.1, h2.2]
+  | .unary i op e, ov, hn, hf => by
+      simp only [noWalrus] at hn
+      simp only [fragE] at hf
+      have := frag_adjust_nw e ov hn hf
+      simp [adjustCtx, fragE, noWalrus, this.1, this.2]
+  | .binop i op l r, ov, hn, hf => by
+      simp only [noWalrus, Bool.and_eq_true] at hn
+      simp only [fragE, Bool.and_eq_true] at hf
+      have h1 := frag_adjust_nw l ov hn.1 hf.1
+      have h2 := frag_adjust_nw r ov hn.2 hf.2
+      simp [adjustCtx, fragE, noWalrus, h1.1, h1.2, h2.1, h2.2]
+  | .compare i l ops rs, ov, hn, hf => by
+      simp only [noWalrus, Bool.and_eq_true] at hn
+      simp only [fragE, Bool.and_eq_true] at hf
+      obtain ⟨⟨⟨hl, hrs⟩, hops⟩, hlen⟩ := hf
+      have h1 := frag_adjust_nw l ov hn.1 hl
+      have h2 := frags_adjust_nw rs ov hn.2 hrs
+      simp [adjustCtx, fragE, noWalrus, h1.1, h1.2, h2.1, h2.2, hops, adjustCtxs_length, hlen]
+  | .seq i .set es c, ov, hn, hf => by
+      simp only [noWalrus] at hn
+      simp only [fragE, Bool.and_eq_true] at hf
+      have h2 := frags_adjust_nw es ov hn hf.1
+      simp [adjustCtx, fragE, noWalrus, h2.1, h2.2]
+  | .seq i .tuple es c, ov, hn, hf => by
+      simp only [noWalrus] at hn
+      simp only [fragE, Bool.and_eq_true] at hf
+      have h2 := frags_adjust_nw es ov hn hf.1
+      simp [adjustCtx, fragE, noWalrus, h2.1, h2.2]
+  | .seq i .list es c, ov, hn, hf => by
+      simp only [noWalrus] at hn
+      simp only [fragE, Bool.and_eq_true] at hf
+      have h2 := frags_adjust_nw es ov hn hf.1
+      simp [adjustCtx, fragE, noWalrus, h2.1, h2.2]
+  | .namedexpr .., _, hn, _ => by simp [noWalrus] at hn
+  | .keyword .., _, _, h | .boolop .., _, _, h | .ifexp .., _, _, h | .lambda .., _, _, h | .starred .., _, _, h
+  | .comp .., _, _, h | .comprehension .., _, _, h | .arguments .., _, _, h | .arg .., _, _, h | .withitem .., _, _, h
+  | .noneMarker, _, _, h | .other .., _, _, h => by notfrag h
+theorem frags_adjust_nw : ∀ (es : List Expr) (ov : Option Ctx), noWalruss es = true → fragEs es = true →
+    fragEs (adjustCtxs ov es) = true ∧ noWalruss (adjustCtxs ov es) = true
+  | [], ov, _, _ => by simp [adjustCtxs, fragEs, noWalruss]
+  | e :: es, ov, hn, hf => by
+      simp only [noWalruss, Bool.and_eq_true] at hn
+      simp only [fragEs, Bool.and_eq_true] at hf
+      have h1 := frag_adjust_nw e ov hn.1 hf.1
+      have h2 := frags_adjust_nw es ov hn.2 hf.2
+      simp [adjustCtxs, fragEs, noWalruss, h1.1, h1.2, h2.1, h2.2]
 theorem adjustCtxs_length : ∀ (es : List Expr) (ov : Option Ctx), (adjustCtxs ov es).length = es.length
   | [], ov => by simp [adjustCtxs]
   | e :: es, ov => by simp [adjustCtxs, adjustCtxs_length es]
 end
 
-/-! ### evaluation ignores expression contexts -/
+/-! ### evaluation of `:=`-free expressions ignores expression contexts -/
 mutual
-theorem evalE_adjust (O : Oracle) : ∀ (e : Expr) (ov : Option Ctx) (σ : St), fragE e = true →
+theorem evalE_adjust (O : Oracle) : ∀ (e : Expr) (ov : Option Ctx) (σ : St), noWalrus e = true → fragE e = true →
     evalE O (adjustCtx ov e) σ = evalE O e σ
-  | .name .., ov, σ, _ => by simp [adjustCtx, evalE]
-  | .const .., ov, σ, _ => by simp [adjustCtx, evalE]
-  | .attr i v a c, ov, σ, h => by
-      simp only [fragE] at h
-      simp [adjustCtx, evalE, evalE_adjust O v _ _ h]
-  | .subscript i v s c, ov, σ, h => by
+  | .name .., ov, σ, _, _ => by simp [adjustCtx, evalE]
+  | .const .., ov, σ, _, _ => by simp [adjustCtx, evalE]
+  | .attr i v a c, ov, σ, hn, h => by
+      simp only [noWalrus] at hn
       simp only [fragE, Bool.and_eq_true] at h
-      simp only [adjustCtx, evalE, evalE_adjust O v _ _ h.1]
+      simp [adjustCtx, evalE, evalE_adjust O v _ _ hn h.1]
+  | .subscript i v s c, ov, σ, hn, h => by
+      simp only [noWalrus, Bool.and_eq_true] at hn
+      simp only [fragE, Bool.and_eq_true] at h
+      simp only [adjustCtx, evalE, evalE_adjust O v _ _ hn.1 h.1.1.1]
       cases evalE O v σ with
-      | mk r σ1 => cases r <;> simp [evalE_adjust O s _ _ h.2]
-  | .call i f as ks, ov, σ, h => by
+      | mk r σ1 => cases r <;> simp [evalE_adjust O s _ _ hn.2 h.1.1.2]
+  | .call i f as ks, ov, σ, hn, h => by
+      simp only [noWalrus, Bool.and_eq_true] at hn
       simp only [fragE, Bool.and_eq_true, List.isEmpty_iff] at h
       obtain ⟨⟨hf, ha⟩, rfl⟩ := h
-      simp only [adjustCtx, adjustCtxs, evalE, evalE_adjust O f _ _ hf]
+      simp only [adjustCtx, adjustCtxs, evalE, evalE_adjust O f _ _ hn.1.1 hf]
       cases evalE O f σ with
-      | mk r σ1 => cases r <;> simp [evalArgs_adjust O as _ _ ha]
-  | .unary i op e, ov, σ, h => by
+      | mk r σ1 => cases r <;> simp [evalArgs_adjust O as _ _ hn.1.2 ha]
+  | .unary i op e, ov, σ, hn, h => by
+      simp only [noWalrus] at hn
       simp only [fragE] at h
-      simp [adjustCtx, evalE, evalE_adjust O e _ _ h]
-  | .binop i op l r, ov, σ, h => by
+      simp [adjustCtx, evalE, evalE_adjust O e _ _ hn h]
+  | .binop i op l r, ov, σ, hn, h => by
+      simp only [noWalrus, Bool.and_eq_true] at hn
       simp only [fragE, Bool.and_eq_true] at h
-      simp only [adjustCtx, evalE, evalE_adjust O l _ _ h.1]
+      simp only [adjustCtx, evalE, evalE_adjust O l _ _ hn.1 h.1]
       cases evalE O l σ with
-      | mk r1 σ1 => cases r1 <;> simp [evalE_adjust O r _ _ h.2]
-  | .compare i l ops rs, ov, σ, h => by
+      | mk r1 σ1 => cases r1 <;> simp [evalE_adjust O r _ _ hn.2 h.2]
+  | .compare i l ops rs, ov, σ, hn, h => by
+      simp only [noWalrus, Bool.and_eq_true] at hn
       simp only [fragE, Bool.and_eq_true] at h
       obtain ⟨⟨⟨hl, hrs⟩, -⟩, -⟩ := h
-      simp only [adjustCtx, evalE, evalE_adjust O l _ _ hl]
+      simp only [adjustCtx, evalE, evalE_adjust O l _ _ hn.1 hl]
       cases evalE O l σ with
-      | mk r1 σ1 => cases r1 <;> simp [evalCmp_adjust O rs _ _ _ _ hrs]
-  | .seq i .set es c, ov, σ, h => by
-      simp only [fragE] at h
-      simp [adjustCtx, evalE, evalArgs_adjust O es _ _ h]
-  | .seq i .tuple es c, ov, σ, h => by
-      simp only [fragE] at h
-      simp [adjustCtx, evalE, evalArgs_adjust O es _ _ h]
-  | .seq i .list es c, ov, σ, h => by
-      simp only [fragE] at h
-      simp [adjustCtx, evalE, evalArgs_adjust O es _ _ h]
-  | .namedexpr i (.name j s c) v, ov, σ, h => by
-      simp only [fragE] at h
-      simp [adjustCtx, evalE, evalE_adjust O v _ _ h]
-  | .namedexpr _ (.const ..) _, _, _, h | .namedexpr _ (.attr ..) _, _, _, h | .namedexpr _ (.subscript ..) _, _, _, h
-  | .namedexpr _ (.call ..) _, _, _, h | .namedexpr _ (.keyword ..) _, _, _, h | .namedexpr _ (.boolop ..) _, _, _, h
-  | .namedexpr _ (.unary ..) _, _, _, h | .namedexpr _ (.binop ..) _, _, _, h | .namedexpr _ (.compare ..) _, _, _, h
-  | .namedexpr _ (.ifexp ..) _, _, _, h | .namedexpr _ (.lambda ..) _, _, _, h | .namedexpr _ (.seq ..) _, _, _, h
-  | .namedexpr _ (.starred ..) _, _, _, h | .namedexpr _ (.namedexpr ..) _, _, _, h | .namedexpr _ (.comp ..) _, _, _, h
-  | .namedexpr _ (.comprehension ..) _, _, _, h | .namedexpr _ (.arguments ..) _, _, _, h | .namedexpr _ (.arg ..) _, _, _, h
-  | .namedexpr _ (.withitem ..) _, _, _, h | .namedexpr _ .noneMarker _, _, _, h | .namedexpr _ (.other ..) _, _, _, h
-  | .keyword .., _, _, h | .boolop .., _, _, h | .ifexp .., _, _, h | .lambda .., _, _, h | .starred .., _, _, h
-  | .comp .., _, _, h | .comprehension .., _, _, h | .arguments .., _, _, h | .arg .., _, _, h | .withitem .., _, _, h
-  | .noneMarker, _, _, h | .other .., _, _, h => by simp [fragE] at h
-theorem evalArgs_adjust (O : Oracle) : ∀ (es : List Expr) (ov : Option Ctx) (σ : St), fragEs es = true →
-    evalArgs O (adjustCtxs ov es) σ = evalArgs O es σ
-  | [], ov, σ, _ => by simp [adjustCtxs, evalArgs]
-  | e :: es, ov, σ, h => by
+      | mk r1 σ1 => cases r1 <;> simp [evalCmp_adjust O rs _ _ _ _ hn.2 hrs]
+  | .seq i .set es c, ov, σ, hn, h => by
+      simp only [noWalrus] at hn
+      simp only [fragE, Bool.and_eq_true] at h
+      simp [adjustCtx, evalE, evalArgs_adjust O es _ _ hn h.1]
+  | .seq i .tuple es c, ov, σ, hn, h => by
+      simp only [noWalrus] at hn
+      simp only [fragE, Bool.and_eq_true] at h
+      simp [adjustCtx, evalE, evalArgs_adjust O es _ _ hn h.1]
+  | .seq i .list es c, ov, σ, hn, h => by
+      simp only [noWalrus] at hn
+      simp only [fragE, Bool.and_eq_true] at h
+      simp [adjustCtx, evalE, evalArgs_adjust O es _ _ hn h.1]
+  | .namedexpr .., _, _, hn, _ => by simp [noWalrus] at hn
+  | .keyword .., _, _, _, h | .boolop .., _, _, _, h | .ifexp .., _, _, _, h | .lambda .., _, _, _, h
+  | .starred .., _, _, _, h | .comp .., _, _, _, h | .comprehension .., _, _, _, h | .arguments .., _, _, _, h
+  | .arg .., _, _, _, h | .withitem .., _, _, _, h | .noneMarker, _, _, _, h | .other .., _, _, _, h => by notfrag h
+theorem evalArgs_adjust (O : Oracle) : ∀ (es : List Expr) (ov : Option Ctx) (σ : St), noWalruss es = true →
+    fragEs es = true → evalArgs O (adjustCtxs ov es) σ = evalArgs O es σ
+  | [], ov, σ, _, _ => by simp [adjustCtxs, evalArgs]
+  | e :: es, ov, σ, hn, h => by
+      simp only [noWalruss, Bool.and_eq_true] at hn
       simp only [fragEs, Bool.and_eq_true] at h
-      rw [adjustCtxs, evalArgs_cons_frag O ((frag_adjust e ov).trans h.1), evalArgs_cons_frag O h.1,
-        evalE_adjust O e _ _ h.1]
+      rw [adjustCtxs, evalArgs_cons_frag O (frag_adjust_nw e ov hn.1 h.1).1, evalArgs_cons_frag O h.1,
+        evalE_adjust O e _ _ hn.1 h.1]
       cases evalE O e σ with
-      | mk r1 σ1 => cases r1 <;> simp [evalArgs_adjust O es _ _ h.2]
+      | mk r1 σ1 => cases r1 <;> simp [evalArgs_adjust O es _ _ hn.2 h.2]
 theorem evalCmp_adjust (O : Oracle) : ∀ (rs : List Expr) (ov : Option Ctx) (x : Val) (ops : List String) (σ : St),
-    fragEs rs = true → evalCmp O x ops (adjustCtxs ov rs) σ = evalCmp O x ops rs σ
-  | [], ov, x, ops, σ, _ => by cases ops <;> simp [adjustCtxs, evalCmp]
-  | r :: rs, ov, x, ops, σ, h => by
+    noWalruss rs = true → fragEs rs = true → evalCmp O x ops (adjustCtxs ov rs) σ = evalCmp O x ops rs σ
+  | [], ov, x, ops, σ, _, _ => by cases ops <;> simp [adjustCtxs, evalCmp]
+  | r :: rs, ov, x, ops, σ, hn, h => by
+      simp only [noWalruss, Bool.and_eq_true] at hn
       simp only [fragEs, Bool.and_eq_true] at h
       cases ops with
       | nil => simp [adjustCtxs, evalCmp]
       | cons op ops =>
-        simp only [adjustCtxs, evalCmp, evalE_adjust O r _ _ h.1]
+        simp only [adjustCtxs, evalCmp, evalE_adjust O r _ _ hn.1 h.1]
         cases evalE O r σ with
-        | mk r1 σ1 => cases r1 <;> simp [evalCmp_adjust O rs _ _ _ _ h.2]
+        | mk r1 σ1 => cases r1 <;> simp [evalCmp_adjust O rs _ _ _ _ hn.2 h.2]
 end
+
+/-- an expression of the fragment that carries a context contains no `:=` -/
+theorem frag_hasCtx_nw {x : Expr} (hf : fragE x = true) (hc : hasCtx x = true) : noWalrus x = true := by
+  cases x <;> simp [hasCtx] at hc <;> simp [fragE] at hf
+  · simp [noWalrus]
+  · simp [noWalrus, hf.2]
+  · simp [noWalrus, hf.1.2, hf.2]
+  · simp [noWalrus, hf.2]
 
 end Malt.Anf
 
@@ -191,9 +236,9 @@ theorem evalE_frame (O : Oracle) : ∀ (e : Expr) (σ : St) (y : String), fragE 
   | .name .., σ, y, _, _ => by simp [evalE]
   | .const .., σ, y, _, _ => by simp [evalE]
   | .attr i v a c, σ, y, h, hy => by
-      simp only [fragE] at h
+      simp only [fragE, Bool.and_eq_true] at h
       simp only [writesE] at hy
-      have := evalE_frame O v σ y h hy
+      have := evalE_frame O v σ y h.1 hy
       simp only [evalE]
       rcases hv : evalE O v σ with ⟨r, σ1⟩
       rw [hv] at this
@@ -201,14 +246,14 @@ theorem evalE_frame (O : Oracle) : ∀ (e : Expr) (σ : St) (y : String), fragE 
   | .subscript i v s c, σ, y, h, hy => by
       simp only [fragE, Bool.and_eq_true] at h
       simp only [writesE, List.mem_append, not_or] at hy
-      have h1 := evalE_frame O v σ y h.1 hy.1
+      have h1 := evalE_frame O v σ y h.1.1.1 hy.1
       simp only [evalE]
       rcases hv : evalE O v σ with ⟨r, σ1⟩
       rw [hv] at h1
       cases r with
       | error x => simpa using h1
       | ok x =>
-        have h2 := evalE_frame O s σ1 y h.2 hy.2
+        have h2 := evalE_frame O s σ1 y h.1.1.2 hy.2
         simp only
         rcases hs : evalE O s σ1 with ⟨r2, σ2⟩
         rw [hs] at h2
@@ -271,9 +316,9 @@ theorem evalE_frame (O : Oracle) : ∀ (e : Expr) (σ : St) (y : String), fragE 
         simp only
         rw [evalCmp_frame O rs x ops σ1 y hrs hy.2]; simpa using h1
   | .seq i k es c, σ, y, h, hy => by
-      simp only [fragE] at h
+      simp only [fragE, Bool.and_eq_true] at h
       simp only [writesE] at hy
-      have h2 := evalArgs_frame O es σ y h hy
+      have h2 := evalArgs_frame O es σ y h.1 hy
       simp only [evalE]
       rcases hs : evalArgs O es σ with ⟨r2, σ2⟩
       rw [hs] at h2
@@ -282,7 +327,7 @@ theorem evalE_frame (O : Oracle) : ∀ (e : Expr) (σ : St) (y : String), fragE 
       | ok avs =>
         simp only
         split <;> simpa using h2
-  | .namedexpr i (.name j s c) v, σ, y, h, hy => by
+  | .namedexpr i (.name j s .store) v, σ, y, h, hy => by
       simp only [fragE] at h
       simp only [writesE, namesE, List.mem_append, List.mem_singleton, not_or] at hy
       have h1 := evalE_frame O v σ y h hy.2
@@ -293,6 +338,7 @@ theorem evalE_frame (O : Oracle) : ∀ (e : Expr) (σ : St) (y : String), fragE 
       | error x => simpa using h1
       | ok x =>
         simp only [get_set, if_neg hy.1]; simpa using h1
+  | .namedexpr _ (.name _ _ .load) _, _, _, h, _ | .namedexpr _ (.name _ _ .del) _, _, _, h, _
   | .namedexpr _ (.const ..) _, _, _, h, _ | .namedexpr _ (.attr ..) _, _, _, h, _ | .namedexpr _ (.subscript ..) _, _, _, h, _
   | .namedexpr _ (.call ..) _, _, _, h, _ | .namedexpr _ (.keyword ..) _, _, _, h, _ | .namedexpr _ (.boolop ..) _, _, _, h, _
   | .namedexpr _ (.unary ..) _, _, _, h, _ | .namedexpr _ (.binop ..) _, _, _, h, _ | .namedexpr _ (.compare ..) _, _, _, h, _
